@@ -312,7 +312,15 @@ fn random_steps(rng: &mut Rng, t0: u64, epoch_ms: i64) -> Vec<Step> {
     steps
 }
 
-pub fn search(_pid: &str, _oid: &str, seed: u64) -> Option<Found> {
+pub fn search(_pid: &str, oid: &str, seed: u64) -> Option<Found> {
+    // the witness family of the refuted function first: ".../CommandExecutor::execute_mset/..." -> the "MSET ..." scenarios
+    let cmd = oid.split("execute_").nth(1).map(|r| r.split('/').next().unwrap_or("").to_uppercase()).unwrap_or_default();
+    let cmd = match cmd.as_str() { "BATCH_SET" => "BATCHSET".to_string(), "TTL" | "PTTL" | "EXPIRETIME" | "PEXPIRETIME" => "EXPIRE".to_string(), c => c.to_string() };
+    if !cmd.is_empty() {
+        for (label, steps) in structured().into_iter().filter(|(l, _)| l.starts_with(&cmd)) {
+            if let Some(f) = check(1_700_000_000_000, 1000, &steps, &label) { return Some(f); }
+        }
+    }
     for (label, steps) in structured() {
         if let Some(f) = check(1_700_000_000_000, 1000, &steps, &label) { return Some(f); }
     }
@@ -320,7 +328,7 @@ pub fn search(_pid: &str, _oid: &str, seed: u64) -> Option<Found> {
         if let Some(f) = check(0, 1000, &steps.into_iter().filter(|s| !matches!(s, Step::Cmd(Command::PExpireAt(..)) | Step::Cmd(Command::ExpireAt(..)))).collect::<Vec<_>>(), &label) { return Some(f); }
     }
     let mut rng = Rng::new(seed + 101);
-    for it in 0..1500u64 {
+    for it in 0..4000u64 {
         let epoch_ms = *rng.pick(&[1_700_000_000_000i64, 0, 1_700_000_000_123]);
         let t0 = *rng.pick(&[0u64, 1000, 12_345]);
         let steps = random_steps(&mut rng, t0, epoch_ms);
